@@ -13,7 +13,7 @@ KINDS = ["succeed", "fail-retry-left", "fail-exhausted", "recurring-succeed"]
 _ITERS = {}
 
 
-def _run_stop(S, kind, n_msgs, with_result, k, g, d=Fraction(5, 1000), tasks_limit=2, actor_steps=None):
+def _run_stop(S, kind, n_msgs, with_result, k, g, d=Fraction(5, 1000), tasks_limit=2, actor_steps=None, slow_ack=False):
     from repid import Job, Router, Worker
     from repid.converter import BasicConverter
 
@@ -25,6 +25,16 @@ def _run_stop(S, kind, n_msgs, with_result, k, g, d=Fraction(5, 1000), tasks_lim
         w = World(results=True)
         await w.open(record=True)
         r = Router()
+        if slow_ack:
+            # the message broker answers slowly (several loop steps per ack), the result store at once
+            real_ack = w.broker.ack
+
+            async def ack(key):
+                for _ in range(8):
+                    await asyncio.sleep(0)
+                return await real_ack(key)
+
+            w.broker.ack = ack
 
         @r.actor(converter=BasicConverter, retry_policy=lambda retry_number=1: real_timedelta(seconds=30))
         async def job(i: int):
@@ -86,6 +96,7 @@ def _run_stop(S, kind, n_msgs, with_result, k, g, d=Fraction(5, 1000), tasks_lim
         out["places"] = w.places()
         out["before"] = before
         out["runs"] = list(runs)
+        out["results"] = {f"m{i}": (await w.rb.get_bucket(f"r{i}")) for i in range(n_msgs)} if with_result else {}
 
     run_async(main)
     return out
@@ -137,6 +148,9 @@ def _stop_oracle(S, out, n_msgs, g):
             if msg.parameters == out["before"][mid]:
                 S.cover("returned")
                 S.check("not-both-completed-and-returned", not completed, info=f"{mid}: {trace}")
+                res = out.get("results", {}).get(mid)
+                S.check("returned-message-has-no-published-success", res is None or not res.success,
+                        info=f"{mid} is back in its queue to run again, yet a successful result is published for it")
             else:
                 S.cover("requeued")
                 S.check("changed-parameters-only-by-requeue", "requeue" in started, info=f"{mid}: {trace}")
@@ -153,9 +167,10 @@ def h03_stop_steps(S, n_msgs=1, kinds=(0, 1, 2, 3), max_steps=12):
     kind = kinds[S.pick("actor_kind", len(kinds))]
     with_result = S.flag("store_result")
     n = S.pick("actor_ends_this_many_loop_steps_after_the_stop_request", max_steps + 1)
+    slow_ack = with_result and kind == 0 and S.flag("message_broker_acks_slowly")
     S.tag("kind", KINDS[kind])
     try:
-        out = _run_stop(S, kind, n_msgs, with_result, k=None, g=0, actor_steps=n)
+        out = _run_stop(S, kind, n_msgs, with_result, k=None, g=0, actor_steps=n, slow_ack=slow_ack)
     except Deadlock:
         S.check("run-returns", False, info="deadlock")
         return
